@@ -236,6 +236,38 @@ def scn_assign(params):
                                               % (mc.userid, mc.tun_ip, modes[mc.userid], params["tun"], sorted(set(got)), want_), dict(wit, modes=modes)))
                     break
                 out["nontrivial"].append(repr(("lookup-after-a-minute", modes[mc.userid], int(bits) >= 28)))
+            # The boundary itself: one DNS-mode session X speaks for the last time at t0; the others keep the server busy until
+            # t0+55 s, then everybody is quiet (iodined sleeps in select()).  A packet for X's address arriving at t0+58 s finds
+            # X (it is queued for it); one arriving at t0+62..69 s finds nobody (nothing is queued) - whatever iodined was doing
+            # when it last looked at the clock.
+            cand = [m2 for m2 in mcs if modes[m2.userid] in ("dnsping", "dnsdata")]
+            if cand and not out["violations"] and srv.alive():
+                X = rng.choice(cand)
+                others = [m2 for m2 in mcs if m2 is not X and not modes[m2.userid].startswith("raw") and modes[m2.userid] != "silent"]
+                late = rng.choice([58, 62, 62, 64, 67, 69])
+                X.ping(wait_us=20000)
+                X.drain()
+                t0 = k.now
+                while k.now < t0 + 55 * 1000000:
+                    k.run(min(t0 + 55 * 1000000, k.now + rng.choice([4, 5, 6]) * 1000000))
+                    for m2 in others[:3]:
+                        m2.ping(wait_us=2000)
+                k.run(t0 + late * 1000000 + rng.choice([0, 300000, 700000]))
+                fr = proto.make_frame(sip, X.tun_ip, (0xC18D << 20) | params["idx"], 60, "random", rng)
+                k.offer_tun("srv", fr, None)
+                k.run(k.now + 100000)
+                row = srv.snapshot[X.userid] if X.userid < len(srv.snapshot) else None
+                if row is not None:
+                    queued = row["out_len"] > 0 or row["outpacketq_filled"] > 0
+                    out["stats"]["assign_lookups_at_the_60s_boundary"] = out["stats"].get("assign_lookups_at_the_60s_boundary", 0) + 1
+                    out["evaluations"] += 1
+                    if late >= 62 and queued:
+                        out["violations"].append(("C18:lookup:silent-session-found", "a packet for %s arriving %d s after its session last spoke (the server had been idle for %d s) was queued for that session"
+                                                  % (X.tun_ip, late, late - 55), dict(wit, late=late)))
+                    elif late <= 58 and not queued:
+                        out["violations"].append(("C18:lookup:live-session-not-found", "a packet for %s arriving %d s after its session last spoke was not queued for it" % (X.tun_ip, late), dict(wit, late=late)))
+                    else:
+                        out["nontrivial"].append(repr(("lookup-at-boundary", late)))
         if params["idx"] < 2:
             out["sample"] = {"engine": "A", "tun": params["tun"], "sessions": len(mcs), "told": sorted(told)[:4]}
         return out
